@@ -37,7 +37,7 @@ def generate(tier, seed):
                         twin = [nu[0]] + mid + [nu[-1]]
                 cases.append(dict(columns=('reordered' if r % 3 == 1 else 'standard'), legacy=(r % 4 == 3), err_unit=(a if rng.random() < 0.5 else rng.choice(names)), twin_nu=twin, stored=a, requested=b, third=rng.choice(names), nu=nu, order=rng.choice(['incr', 'decr']),
                                   flux=[[rng.logdyadic(1e-3, 1e3, 10) for _ in nu] for _ in range(nap)], dist_kpc=rng.logdyadic(1e-3, 1e3, 8),
-                                  bad=rng.choice(['K', 'm', 'Hz', 'kg']) if r == 0 else None, read_order=rng.choice(['nu', 'wav'])))
+                                  bad=rng.choice(['K', 'm', 'Hz', 'kg', 'W / Hz', 'Jy / sr', 'erg / (s cm3)', 'mJy2', 'erg / (s cm2 micron)']) if r == 0 else None, read_order=rng.choice(['nu', 'wav'])))
     return cases
 
 
@@ -106,6 +106,17 @@ def impl(case):
 MODEL_NEEDS_IMPL = True
 
 
+def unit_desc(name):
+    """a unit the way astropy decomposes it: [scale to SI, exponent of kg, of m, of s, sum of |exponents| of any other base]"""
+    from astropy import units as u
+    un = u.Unit(name).decompose()
+    pw = {str(b): int(p) if float(p).is_integer() else None for b, p in zip(un.bases, un.powers)}
+    other = sum(abs(p) if p is not None else 1 for b, p in pw.items() if b not in ('kg', 'm', 's'))
+    if any(pw.get(b) is None for b in ('kg', 'm', 's') if b in pw):
+        other += 1
+    return [Fraction(float(un.scale)).limit_denominator(10 ** 40), pw.get('kg') or 0, pw.get('m') or 0, pw.get('s') or 0, other]
+
+
 def model_requests(case, im):
     if not isinstance(im, dict) or 'B' not in im:
         return []
@@ -116,6 +127,11 @@ def model_requests(case, im):
     nu = sorted(case['nu'])
     for j, v in enumerate(nu):
         reqs.append(('convert', [fa, ka, fb, kb, F(v), d, [F(row[j]) for row in case['flux']]]))
+    # the same conversion with the families derived from the units' dimensions (UnitM.convert_u), and the refusal of the unsupported unit
+    ua, ub = unit_desc(case['stored']), unit_desc(case['requested'])
+    reqs.append(('convert_u', [ua, ub, F(nu[0]), d, [F(row[0]) for row in case['flux']]]))
+    if case['bad']:
+        reqs.append(('convert_u', [ua, unit_desc(case['bad']), F(nu[0]), d, [F(case['flux'][0][0])]]))
     return reqs
 
 
@@ -136,7 +152,21 @@ def judge(case, im, mo):
     for v in nu:      # column of the returned arrays that holds frequency v (either read order)
         k = min(range(len(B['nu'])), key=lambda t: abs(B['nu'][t] - v))
         pos[v] = k
-    for j, col in enumerate(mo):
+    # UnitM.convert_u: families derived from the units' dimensions; an unsupported unit is refused
+    mu = mo[len(nu)] if len(mo) > len(nu) else None
+    if mu is not None:
+        tags.append('unit-dims')
+        for a, w in enumerate(mu):
+            got = B['flux'][a][pos[nu[0]]]
+            if w == [] or not close(got, w[0], 1e-12, 0):
+                disagree.append('%s -> %s (families from dimensions) aperture %d: implementation %r, model %r' % (case['stored'], case['requested'], a, got, None if w == [] else float(w[0])))
+                break
+        if case['bad'] and len(mo) > len(nu) + 1:
+            mb = mo[len(nu) + 1]
+            model_refuses = all(w == [] for w in mb)
+            if model_refuses != str(im.get('bad', '')).startswith('refused'):
+                disagree.append('unsupported unit %s: implementation %s, model %s' % (case['bad'], im.get('bad'), 'refuses' if model_refuses else 'accepts'))
+    for j, col in enumerate(mo[:len(nu)]):
         for a, want in enumerate(col):
             got = B['flux'][a][pos[nu[j]]]
             if not close(got, want, 1e-12, 0):
